@@ -5,7 +5,7 @@ MODULES = ["Props.C15", "Props.C15Tie"]
 THEOREMS = ["Props.C15.c15_complement", "Props.C15.c15_partition", "Props.C15.c15_norun",
             "Props.C15.c15_extract", "Props.C15.c15_extract_no_comment", "Props.C15.c15_fields",
             "Props.C15Tie.return_mode_source_is_model", "Props.C15Tie.run_mode_source_is_model",
-            "Props.C15Tie.unmatched_mode_source_is_model", "Props.C15Tie.c15_settings"]
+            "Props.C15Tie.unmatched_mode_source_is_model", "Props.C15Tie.source_mode_source_is_model", "Props.C15Tie.c15_settings"]
 
 
 def run(check, tier):
